@@ -76,6 +76,14 @@ pub fn generate(profile: &str, seed: u64, index: u64) -> Generated {
                 nontrivial: o.nontrivial,
             }
         }
+        "io" => {
+            let o = crate::gen_io::generate(seed, fault_free);
+            Generated {
+                script: o.script,
+                kinds: o.kinds,
+                nontrivial: o.nontrivial,
+            }
+        }
         "alloc" => {
             let case = crate::alloc::generate(seed);
             let kinds = vec![
@@ -519,6 +527,7 @@ pub fn profiles_for(property: &str, tier: &str) -> Vec<(&'static str, u64)> {
                     ("flow", 400_000),
                     ("stream", 300_000),
                     ("dict", 300_000),
+                    ("io", 600_000),
                 ]
             } else {
                 vec![
@@ -527,6 +536,7 @@ pub fn profiles_for(property: &str, tier: &str) -> Vec<(&'static str, u64)> {
                     ("flow", 40_000),
                     ("stream", 30_000),
                     ("dict", 30_000),
+                    ("io", 40_000),
                 ]
             }
         }
